@@ -33,8 +33,12 @@ structure Thr where
 deriving Repr, DecidableEq
 
 inductive Ev where
-  | create (p t : Nat) (u : UInt64)   -- `p_create_unit(pool p, thread t)` returned `u` (`nul` = ABT_UNIT_NULL)
-  | free (p : Nat) (u : UInt64)       -- `p_free_unit(pool p, u)`
+  /-- `p_create_unit(pool p, thread t)` returned `u` (`nul` = ABT_UNIT_NULL); `m`: how many
+  elements of the unit table hold `u` at that instant -/
+  | create (p t : Nat) (u : UInt64) (m : Nat)
+  /-- `p_free_unit(pool p, u)`; `n`: how many elements of the unit table hold `u` at the instant of
+  the call (the handle may be recycled by the pool from here on) -/
+  | free (p : Nat) (u : UInt64) (n : Nat)
   | use (p : Nat) (u : UInt64)        -- `u` handed to a function of user pool `p` (push, remove, is_in_pool, …)
 deriving Repr, DecidableEq
 
@@ -53,14 +57,17 @@ def St.init (exp : Nat) (nul : UInt64) (isBuiltin : Nat → Bool) : St :=
   { thr := fun _ => ⟨.null, none⟩, map := empty exp nul, isBuiltin := isBuiltin,
     nullBuiltin := nul &&& 1 != 0, log := [] }
 
+/-- number of elements of the unit table that hold handle `u` (they can only be in `u`'s bucket) -/
+def tblCount (m : UM) (u : UInt64) : Nat := ((m.b (hashIndex m.exp u)).filter (fun e => e.unit == u)).length
+
 def updT (f : Nat → Thr) (t : Nat) (v : Thr) : Nat → Thr := fun x => if x = t then v else f x
 
 /-- the common sequence `create_unit; if NULL fail; map; if failed free_unit, fail` -/
 def newUserUnit (s : St) (t p : Nat) (nu : UInt64) (mem : Bool) : St × Rc :=
-  let s1 := { s with log := .create p t nu :: s.log }
+  let s1 := { s with log := .create p t nu (tblCount s.map nu) :: s.log }
   if nu = s.map.nul then (s1, .other)
   else match mapThread s1.map nu t mem with
-    | none => ({ s1 with log := .free p nu :: s1.log }, .mem)
+    | none => ({ s1 with log := .free p nu (tblCount s1.map nu) :: s1.log }, .mem)
     | some m' => ({ s1 with map := m' }, .ok)
 
 /-- the four non-trivial cases shared by `ABTI_thread_set_associated_pool` (unit read from
@@ -87,7 +94,7 @@ def setAssocCore (s : St) (t : Nat) (unit : URef) (p : Nat) (nu : UInt64) (mem :
         match unmapThread s.map u with
         | none => none
         | some m' =>
-          some ({ s with map := m', log := .free oldp u :: s.log, thr := updT s.thr t ⟨.builtin t, some p⟩ }, .ok)
+          some ({ s with map := m', log := .free oldp u (tblCount m' u) :: s.log, thr := updT s.thr t ⟨.builtin t, some p⟩ }, .ok)
       else if oldp = p then some (s, .ok)
       else
         let (s1, rc) := newUserUnit s t p nu mem
@@ -95,7 +102,7 @@ def setAssocCore (s : St) (t : Nat) (unit : URef) (p : Nat) (nu : UInt64) (mem :
           match unmapThread s1.map u with
           | none => none
           | some m' =>
-            some ({ s1 with map := m', log := .free oldp u :: s1.log, thr := updT s1.thr t ⟨.user nu, some p⟩ }, .ok)
+            some ({ s1 with map := m', log := .free oldp u (tblCount m' u) :: s1.log, thr := updT s1.thr t ⟨.user nu, some p⟩ }, .ok)
         else some (s1, rc)
 
 /-- `ABTI_thread_set_associated_pool` -/
@@ -129,7 +136,7 @@ def unsetAssoc (s : St) (t : Nat) : Option St :=
   | .user u =>
     match (s.thr t).pool, unmapThread s.map u with
     | some oldp, some m' =>
-      some { s with map := m', log := .free oldp u :: s.log, thr := updT s.thr t ⟨.null, none⟩ }
+      some { s with map := m', log := .free oldp u (tblCount m' u) :: s.log, thr := updT s.thr t ⟨.null, none⟩ }
     | _, _ => none
 
 /-- `ABTI_pool_push(p_thread->p_pool, p_thread->unit)` and friends: the unit handed to the pool
@@ -177,26 +184,50 @@ def runOps (s : St) : List Op → Option (St × List Out)
 /-- is unit `u` of pool `p` live (created, not yet freed) after this log? -/
 def liveL (z : UInt64) : List Ev → UInt64 → Nat → Bool
   | [], _, _ => false
-  | .create p' _ u' :: r, u, p => if u' = u ∧ p' = p ∧ u ≠ z then true else liveL z r u p
-  | .free p' u' :: r, u, p => if u' = u ∧ p' = p then false else liveL z r u p
+  | .create p' _ u' _ :: r, u, p => if u' = u ∧ p' = p ∧ u ≠ z then true else liveL z r u p
+  | .free p' u' _ :: r, u, p => if u' = u ∧ p' = p then false else liveL z r u p
   | .use _ _ :: r, u, p => liveL z r u p
 
 /-- every `create_unit` result is a unit that is not live, every `free_unit` and every use
 concerns a live unit -/
 def LogOK (z : UInt64) : List Ev → Prop
   | [] => True
-  | .create p _ u :: r => (u ≠ z → liveL z r u p = false) ∧ LogOK z r
-  | .free p u :: r => liveL z r u p = true ∧ LogOK z r
+  | .create p _ u _ :: r => (u ≠ z → liveL z r u p = false) ∧ LogOK z r
+  | .free p u _ :: r => liveL z r u p = true ∧ LogOK z r
   | .use p u :: r => liveL z r u p = true ∧ LogOK z r
 
 def creates : List Ev → UInt64 → Nat → Nat
   | [], _, _ => 0
-  | .create p' _ u' :: r, u, p => (if u' = u ∧ p' = p then 1 else 0) + creates r u p
+  | .create p' _ u' _ :: r, u, p => (if u' = u ∧ p' = p then 1 else 0) + creates r u p
   | _ :: r, u, p => creates r u p
 
 def frees : List Ev → UInt64 → Nat → Nat
   | [], _, _ => 0
-  | .free p' u' :: r, u, p => (if u' = u ∧ p' = p then 1 else 0) + frees r u p
+  | .free p' u' _ :: r, u, p => (if u' = u ∧ p' = p then 1 else 0) + frees r u p
   | _ :: r, u, p => frees r u p
+
+/-- `create_unit` calls, over all pools, that returned handle `u` -/
+def crT : List Ev → UInt64 → Nat
+  | [], _ => 0
+  | .create _ _ u' _ :: r, u => (if u' = u then 1 else 0) + crT r u
+  | _ :: r, u => crT r u
+
+/-- `free_unit` calls, over all pools, for handle `u` -/
+def frT : List Ev → UInt64 → Nat
+  | [], _ => 0
+  | .free _ u' _ :: r, u => (if u' = u then 1 else 0) + frT r u
+  | _ :: r, u => frT r u
+
+/-- order of the user callbacks relative to the table operations, read off the recorded table
+multiplicities: when `create_unit` returns `u`, and when `free_unit` is called with `u`, the unit
+table holds `u` exactly as often as there are *other* outstanding units with that handle (units
+created and not yet passed to `free_unit`; more than zero only when pools share a handle for one
+work unit).  In particular the unit being created is not mapped yet and the unit being freed is
+not mapped any more: a handle the pool may recycle is never still in the table. -/
+def CountOK (z : UInt64) : List Ev → Prop
+  | [] => True
+  | .create _ _ u m :: r => (u ≠ z → m + frT r u = crT r u) ∧ CountOK z r
+  | .free _ u n :: r => n + 1 + frT r u = crT r u ∧ CountOK z r
+  | .use _ _ :: r => CountOK z r
 
 end ArgoVerif.Model.Assoc
